@@ -589,7 +589,76 @@ func ruleVD3(c *Ctx) {
 			for _, r := range successReturns(f) {
 				targets[r.Block()] = true
 			}
-			exists, wit := c.pathExists(psQuery{F: f, Removed: guards, Via: em.Call.Block(), Targets: targets})
+			// an emission built in a helper that validates by itself under a condition it is handed
+			// (claimUpdateEvent(..., keepsState bool, ...) checks the invariant when keepsState): in the caller the
+			// unvalidated case is the one where that argument is false, and the search below starts from there
+			var viaSeed []psSeed
+			if h := em.Lifted; h != nil && h.Blocks != nil {
+				hGuards := guardNil(h, vci, nil)
+				hTargets := map[*ssa.BasicBlock]bool{}
+				for _, r := range c.nonFailingReturns(h) {
+					hTargets[r.Block()] = true
+				}
+				var inner []*ssa.BasicBlock
+				if ne := c.F.Anchors["newEvent"]; ne != nil {
+					for _, call := range callsTo(h, ne) {
+						if len(call.Common().Args) == 0 {
+							continue
+						}
+						for _, ty := range c.constStrings(call.Common().Args[0], 0, map[ssa.Value]bool{}) {
+							if ty == t {
+								inner = append(inner, call.Block())
+							}
+						}
+					}
+				}
+				unguarded := func(seed []psSeed) bool {
+					for _, ib := range inner {
+						if ex, _ := c.pathExists(psQuery{F: h, Removed: hGuards, Via: ib, Targets: hTargets, Seed: seed}); ex {
+							return true
+						}
+					}
+					return false
+				}
+				// what is known about the helper's parameters where it builds this event (claim: claimValue != "";
+				// unclaim: claimValue == ""): known about the arguments once the call has been passed
+				for _, ib := range inner {
+					for _, bf := range directFacts(h) {
+						prm, isPrm := strip(bf.A.X).(*ssa.Parameter)
+						if !isPrm || prm.Parent() != h || bf.A.Kind != "const" && bf.A.Kind != "bool" && bf.A.Kind != "nil" {
+							continue
+						}
+						if !(bf.E.To() == ib || bf.E.To().Dominates(ib)) || !bf.E.From.Dominates(ib) || len(bf.E.To().Preds) != 1 {
+							continue
+						}
+						pi := paramIndex(prm)
+						if pi < 0 || pi >= len(em.Call.Call.Args) || len(inner) != 1 {
+							continue
+						}
+						a := bf.A
+						a.X = em.Call.Call.Args[pi]
+						viaSeed = append(viaSeed, psSeed{A: &a, Truth: bf.Holds})
+					}
+				}
+				if len(inner) > 0 && len(hGuards) > 0 {
+					if !unguarded(nil) {
+						c.ok(fn, construct, pos, "the helper "+c.Name(h)+" validates the invariant itself on every path through its emission")
+						continue
+					}
+					for pi, prm := range h.Params {
+						if prm.Type().String() != "bool" || pi >= len(em.Call.Call.Args) {
+							continue
+						}
+						onTrue := unguarded([]psSeed{{V: prm, Truth: true}})
+						onFalse := unguarded([]psSeed{{V: prm, Truth: false}})
+						if onTrue != onFalse {
+							// the helper leaves the emission unvalidated only for one value of this parameter
+							viaSeed = append(viaSeed, psSeed{V: em.Call.Call.Args[pi], Truth: onTrue})
+						}
+					}
+				}
+			}
+			exists, wit := c.pathExists(psQuery{F: f, Removed: guards, Via: em.Call.Block(), Targets: targets, ViaSeed: viaSeed})
 			toEm, fromEm := exists, exists
 			okInv := !(toEm && fromEm)
 			notEpic := mustPassEdges(f, em.Call.Block(), guardBool(f, isEpic, false, nil))
